@@ -49,7 +49,7 @@ def codecs(facts, res):
             if c["order"] != ORDER:
                 res.violation(R, f, fn["qname"], key + ":order", c["node"]["l"][1],
                               "base-%d %s orders the digits '%s'; the convention shared by the tree, the decoders and the kernels is '%s'" % (c["base"], c["kind"], c["order"], ORDER))
-    res.floor("C11.1", n, 21, "encoder/decoder sites")
+    res.floor("C11.1", n, 19, "encoder/decoder sites (21 on the pinned tree; the inline encoders of the two per-cell transfer-list builders feed assertions only and may go)")
     for cls in ORDERINGS:
         cs = per_class.get(cls, [])
         for base in (7, 3):
